@@ -75,6 +75,58 @@ func lastSelector(v ssa.Value) (string, ssa.Value) {
 	return "", nil
 }
 
+// selPath renders the access path of a value read out of nested structs and
+// slices, through value copies held in registers or single-store local cells:
+// idx.docLens[docID].cmd -> [param:idx docLens [param:docID] cmd], whether the
+// intermediate structs are addressed in place or copied first.
+func selPath(v ssa.Value, d int) []string {
+	if d > 10 {
+		return nil
+	}
+	switch x := v.(type) {
+	case *ssa.Convert:
+		return selPath(x.X, d+1)
+	case *ssa.ChangeType:
+		return selPath(x.X, d+1)
+	case *ssa.Parameter:
+		return []string{"param:" + x.Name()}
+	case *ssa.Field:
+		return append(selPath(x.X, d+1), ssau.FieldName(x))
+	case *ssa.FieldAddr:
+		return append(selPath(x.X, d+1), ssau.FieldName(x))
+	case *ssa.IndexAddr:
+		idx := "?"
+		if p := selPath(x.Index, d+1); len(p) == 1 {
+			idx = p[0]
+		}
+		return append(selPath(x.X, d+1), "["+idx+"]")
+	case *ssa.Index:
+		idx := "?"
+		if p := selPath(x.Index, d+1); len(p) == 1 {
+			idx = p[0]
+		}
+		return append(selPath(x.X, d+1), "["+idx+"]")
+	case *ssa.UnOp:
+		if x.Op == token.MUL {
+			return selPath(x.X, d+1)
+		}
+	case *ssa.Alloc:
+		// a local copy: what was stored there (once)
+		var val ssa.Value
+		n := 0
+		for _, ref := range *x.Referrers() {
+			if st, ok := ref.(*ssa.Store); ok && st.Addr == ssa.Value(x) {
+				n++
+				val = st.Val
+			}
+		}
+		if n == 1 {
+			return selPath(val, d+1)
+		}
+	}
+	return nil
+}
+
 func runC03(c *Ctx) {
 	r := c.R
 	r.Rule("O-1", "one tokenizer: every indexed token list and the query's term list are results of normalizeAndTokenize")
@@ -409,36 +461,29 @@ func c03TermBM25F(c *Ctx, sx *symx.Ctx, F []string) {
 		var names []string
 		shapeOK := true
 		for i, v := range a[1:] {
-			n, base := lastSelector(v)
+			path := selPath(v, 0)
+			n := ""
+			if len(path) > 0 {
+				n = path[len(path)-1]
+			}
 			names = append(names, n)
+			owner := func(k int) string {
+				if len(path) > k {
+					return path[len(path)-1-k]
+				}
+				return ""
+			}
 			switch i {
 			case 0: // tf.<f> of the tf parameter
-				if base != ssa.Value(fn.Params[2]) && ssau.ParamOf(base) != fn.Params[2] {
-					if al, ok := base.(*ssa.Alloc); !ok || ssau.ParamOf(&ssa.UnOp{}) != nil && al == nil {
-						shapeOK = shapeOK && paramCell(base, fn.Params[2])
-					} else {
-						shapeOK = shapeOK && paramCell(base, fn.Params[2])
-					}
-				}
+				shapeOK = shapeOK && owner(1) == "param:"+fn.Params[2].Name()
 			case 1: // docLens[docID].<f>
-				ia, ok := base.(*ssa.IndexAddr)
-				if !ok || ia.Index != ssa.Value(docID) {
-					shapeOK = false
-				} else if _, ok := ssau.IsFieldLoad(ia.X, dbPkg+".universalIndex", "docLens"); !ok {
-					shapeOK = false
-				}
+				shapeOK = shapeOK && owner(1) == "[param:"+docID.Name()+"]" && owner(2) == "docLens"
 			case 2:
-				if fa, ok := base.(*ssa.FieldAddr); !ok || ssau.FieldName(fa) != "avgLen" {
-					shapeOK = false
-				}
+				shapeOK = shapeOK && owner(1) == "avgLen"
 			case 3:
-				if fa, ok := base.(*ssa.FieldAddr); !ok || ssau.FieldName(fa) != "w" {
-					shapeOK = false
-				}
+				shapeOK = shapeOK && owner(1) == "w"
 			case 4:
-				if fa, ok := base.(*ssa.FieldAddr); !ok || ssau.FieldName(fa) != "b" {
-					shapeOK = false
-				}
+				shapeOK = shapeOK && owner(1) == "b"
 			}
 		}
 		f := names[0]
@@ -861,66 +906,55 @@ func c03WhoWrites(c *Ctx) {
 
 func c03Scoring(c *Ctx, sx *symx.Ctx) {
 	r := c.R
-	fn := c.P.Func("internal/database", "Database", "processPostingsForTerm")
-	fk := "database.(*Database).processPostingsForTerm"
-	if r.Anchor("O-3", fk, fn != nil) {
-		var loop *ssau.RangeLoop
-		ls := ssau.RangeLoops(fn)
-		for i := range ls {
-			if ls[i].Over == ssa.Value(fn.Params[1]) || ssau.ParamOf(ls[i].Over) == fn.Params[1] {
-				loop = &ls[i]
+	// the scoring loop: wherever the postings of a term are walked and the
+	// accumulator (a map from document number to score) is updated
+	nAcc := 0
+	for _, pl := range postingLoops(c) {
+		fn, loop := pl.fn, pl.loop
+		fk := load.FuncKey(fn)
+		var acc []*ssa.MapUpdate
+		ssau.ForEachInstr(fn, false, func(in ssa.Instruction) {
+			if mu, ok := in.(*ssa.MapUpdate); ok && loop.InLoop(mu.Block()) {
+				if m, ok := mu.Map.Type().Underlying().(*types.Map); ok {
+					kb, ok1 := m.Key().Underlying().(*types.Basic)
+					vb, ok2 := m.Elem().Underlying().(*types.Basic)
+					if ok1 && ok2 && kb.Kind() == types.Int && vb.Kind() == types.Float64 {
+						acc = append(acc, mu)
+					}
+				}
+			}
+		})
+		if len(acc) == 0 {
+			continue // a walk over postings that scores nothing
+		}
+		nAcc++
+		keyOK, docOK, callOK := true, false, false
+		for _, mu := range acc {
+			if !pl.current(mu.Key, "docID") {
+				keyOK = false
 			}
 		}
-		if loop == nil {
-			r.Bad("O-3", fk+"#range-postings", c.P.Pos(fn.Pos()), "no range loop over the postings parameter")
-		} else {
-			isP := func(v ssa.Value, field string) bool {
-				n, base := lastSelector(v)
-				if n != field {
-					return false
-				}
-				switch b := base.(type) {
-				case *ssa.IndexAddr:
-					return b.Index == loop.Index
-				case *ssa.Alloc:
-					cnt, good := 0, false
-					for _, ref := range *b.Referrers() {
-						if st, ok := ref.(*ssa.Store); ok && st.Addr == ssa.Value(b) {
-							cnt++
-							if ld, ok := st.Val.(*ssa.UnOp); ok {
-								if ia, ok := ld.X.(*ssa.IndexAddr); ok && ia.Index == loop.Index {
-									good = true
-								}
-							}
-						}
-					}
-					return cnt == 1 && good
-				}
-				return false
+		ssau.ForEachInstr(fn, false, func(in ssa.Instruction) {
+			if !loop.InLoop(in.Block()) {
+				return
 			}
-			keyOK, docOK, callOK := false, false, false
-			ssau.ForEachInstr(fn, false, func(in ssa.Instruction) {
-				switch x := in.(type) {
-				case *ssa.MapUpdate:
-					if x.Map == ssa.Value(fn.Params[5]) || ssau.ParamOf(x.Map) == fn.Params[5] {
-						keyOK = isP(x.Key, "docID")
-					}
-				case *ssa.IndexAddr:
-					if _, ok := ssau.IsFieldLoad(x.X, dbType, "Commands"); ok {
-						docOK = isP(x.Index, "docID")
-					}
-				case *ssa.Call:
-					if strings.HasSuffix(ssau.CallName(x), "universalIndex).termBM25F") {
-						a := x.Common().Args
-						callOK = isP(a[1], "docID") && isP(a[2], "tf")
-					}
+			switch x := in.(type) {
+			case *ssa.IndexAddr:
+				if _, ok := ssau.IsFieldLoad(x.X, dbType, "Commands"); ok {
+					docOK = pl.current(x.Index, "docID")
 				}
-			})
-			r.Check(keyOK, "O-3", fk+"#accumulator-key", c.P.Pos(fn.Pos()), "scores[p.docID]", "the score accumulator is not keyed by the posting's docID")
-			r.Check(docOK, "O-3", fk+"#filtered-command", c.P.Pos(fn.Pos()), "the filters look at db.Commands[p.docID]", "the command examined by the filters is not db.Commands[p.docID]")
-			r.Check(callOK, "O-3", fk+"#scores-own-posting", c.P.Pos(fn.Pos()), "termBM25F(p.docID, p.tf)", "termBM25F is not given the posting's own docID and term frequencies")
-		}
+			case *ssa.Call:
+				if strings.HasSuffix(ssau.CallName(x), "universalIndex).termBM25F") {
+					a := x.Common().Args
+					callOK = len(a) >= 3 && pl.current(a[1], "docID") && pl.current(a[2], "tf")
+				}
+			}
+		})
+		r.Check(keyOK, "O-3", fk+"#accumulator-key", c.P.Pos(fn.Pos()), "scores[p.docID]", "the score accumulator is not keyed by the posting's docID")
+		r.Check(docOK, "O-3", fk+"#filtered-command", c.P.Pos(fn.Pos()), "the filters look at db.Commands[p.docID]", "the command examined by the filters is not db.Commands[p.docID]")
+		r.Check(callOK, "O-3", fk+"#scores-own-posting", c.P.Pos(fn.Pos()), "termBM25F(p.docID, p.tf)", "termBM25F is not given the posting's own docID and term frequencies")
 	}
+	r.Floor("O-3", "scoring loops over postings", nAcc, 1)
 	// query side: terms come from normalizeAndTokenize; postings and df are looked up with the same term
 	su := c.P.Func("internal/database", "Database", "SearchUniversal")
 	if r.Anchor("O-1", "database.(*Database).SearchUniversal", su != nil) {
